@@ -22,7 +22,7 @@ ASSUMPTIONS = ["faults are injected at the solver boundary (QuantileRegressionSo
 BATCH = {"quick": 1, "thorough": 2}
 BUDGET = {"quick": 150, "thorough": 1500}
 MIN_NONTRIVIAL = {"quick": 8, "thorough": 12}
-N = {"quick": 36, "thorough": 400}
+N = {"quick": 28, "thorough": 400}
 CASE_TIMEOUT = 900
 
 
@@ -70,7 +70,10 @@ class Injector:
                       lambda_=_f(kw.get("lambda_", 0.0)), fit_intercept=kw.get("fit_intercept", True),
                       normalize_weights=kw.get("normalize_weights", True), unknown_kwargs=unknown)
             inj.events.append(ev)
-            if inj.target and inj.target[0] == inj.fit_index and inj.attempt == 1:
+            tpos = inj.target[0] if inj.target else None
+            hit = tpos is not None and inj.attempt == 1 and (inj.fit_index in tpos if isinstance(tpos, (set, list, tuple))
+                                                             else inj.fit_index == tpos)
+            if hit:
                 inj.injected += 1
                 ev["outcome"] = "injected:" + inj.target[1]
                 if inj.target[1] == "solver_error":
@@ -161,6 +164,9 @@ def run_case(spec, inputs=None):
             out["inconclusive"] = f"fault-free run raised {harness.exc_info(exc0)}"
             return out
         K = inj.n_fits
+        base_events = {}
+        for e_ in inj.events:
+            base_events.setdefault(e_["fit"], []).append({k_: v_ for k_, v_ in e_.items() if k_ not in ("solver", "outcome")})
         out["counters"]["elections"] = 1
         out["counters"]["fault_positions"] = K
         expected_K = len(call["estimands"]) * (1 + 2 * len(call["prediction_intervals"]))
@@ -209,6 +215,22 @@ def run_case(spec, inputs=None):
                     out["violations"].append(dict(key="C20/retry-normalizes-weights", msg=f"{where} fit #{k}: retry "
                                                   f"normalize_weights={b['normalize_weights']}",
                                                   witness=dict(position=k, kind=kind, retry=b)))
+                # every OTHER fit of the run must be executed exactly as in the fault-free run (one failed solve must
+                # not change how the remaining fits are solved)
+                for f_ in range(1, K + 1):
+                    if f_ == k:
+                        continue
+                    got = [{k_: v_ for k_, v_ in e_.items() if k_ not in ("solver", "outcome")} for e_ in inj.events
+                           if e_["fit"] == f_]
+                    if got != base_events.get(f_):
+                        fields = sorted({n_ for a_, b_ in zip(got, base_events.get(f_, [])) for n_ in a_ if a_[n_] != b_.get(n_)}) \
+                            or ["number-of-solver-calls"]
+                        out["violations"].append(dict(
+                            key=f"C20/other-fit-executed-differently/{'+'.join(fields)}",
+                            msg=f"{where} fit #{k} failed ({kind}); fit #{f_} ({inj.roles.get(f_)}) was then run with "
+                                f"different {fields} than in the fault-free run: {got[:1]} vs {base_events.get(f_, [])[:1]}",
+                            witness=dict(position=k, kind=kind, other_fit=f_)))
+                        break
                 eq, ties, detail = tables_equal(res0, res)
                 out["counters"]["tie_cells"] = out["counters"].get("tie_cells", 0) + ties
                 if not eq:
@@ -220,6 +242,33 @@ def run_case(spec, inputs=None):
                     out["counters"]["tables_identical"] = out["counters"].get("tables_identical", 0) + (ties == 0)
                 sigs.append([call["pi_method"], role, kind, bool(call["model_parameters"].get("lambda_")),
                              len(call["estimands"]), len(call["prediction_intervals"])])
+        # two failing solves in one run (first and last fit, and two random positions) ------------------------------
+        if K >= 2 and not spec.get("only"):
+            rng2 = gen.rng_for(spec["seed"], PROPERTY, spec["i"], salt=99)
+            pairs = [(1, K)]
+            a_, b_ = sorted(int(x) for x in rng2.choice(np.arange(1, K + 1), size=2, replace=False))
+            pairs.append((a_, b_))
+            for pair in pairs:
+                kind = "solver_error" if pair[0] % 2 else "inaccurate_warning"
+                inj.n_fits = 0
+                inj.events = []
+                inj.target = (set(pair), kind)
+                inj.injected = 0
+                res, exc = _run(el, feed, call)
+                out["counters"]["double_fault_runs"] = out["counters"].get("double_fault_runs", 0) + 1
+                if exc is not None:
+                    info = harness.exc_info(exc)
+                    out["violations"].append(dict(key=f"C20/run-fails-after-two-failed-solves/{info['type']}",
+                                                  msg=f"{call['pi_method']}: faults at fits {pair} ({kind}): run raised "
+                                                      f"{info['type']}: {info['msg']}", witness=dict(positions=pair, exc=info)))
+                    continue
+                eq, ties, detail = tables_equal(res0, res)
+                if not eq:
+                    lam = "lambda>0" if call["model_parameters"].get("lambda_") else "lambda=0"
+                    out["violations"].append(dict(key=f"C20/tables-differ-from-fault-free-run/{lam}",
+                                                  msg=f"{call['pi_method']}: faults at fits {pair}: {detail}",
+                                                  witness=dict(positions=pair)))
+            inj.target = None
         out["sets"]["positions"] = sigs
         out["sigs"] = sigs
         out["nontrivial"] = bool(sigs)
